@@ -218,6 +218,28 @@ def pinned_worlds():
     return worlds
 
 
+def standalone_crlf_worlds():
+    """a standalone value with CR LF (or mixed) line endings: recorded once, an updating run with the SAME value passes
+    silently and writes nothing (update converges), and so does the read-only run after it"""
+    from gen import cfg_line
+    from core import hx
+    worlds = []
+    for i, v in enumerate([b'line one\r\nline two\r\n', b'a\r\nb', b'only\r\n', b'mixed\nand\r\nendings', b'\r\n']):
+        w = World('c04-sacrlf-%d' % i)
+        w.add(mode_line(False, ''))
+        w.add(cfg_line(1, 'snaps'))
+        w.add('begin 1 %s' % hx(b'TestCRLF'))
+        w.add('sasnap 1 1 %s' % hx(v))
+        w.add('end 1')
+        for t, (ci, upd) in enumerate([(False, 'true'), (False, 'true'), (True, '')], 2):
+            w.add(mode_line(ci, upd))
+            w.add('begin %d %s' % (t, hx(b'TestCRLF')))
+            w.add('sasnap 1 %d %s' % (t, hx(v)), ('unchanged-crlf-value-passes-and-writes-nothing', suites.exp_silent))
+            w.add('end %d' % t)
+        worlds.append(w)
+    return worlds
+
+
 def run(ctx):
     g = Gen(ctx.seed * 1000003 + 4)
     n = 150 if ctx.tier == 'quick' else 4000
@@ -236,5 +258,6 @@ def run(ctx):
         worlds.append(render('c04-%d' % i, spec))
     worlds += fixed_worlds(ctx)
     worlds += pinned_worlds()
+    worlds += standalone_crlf_worlds()
     run_suite(ctx, 'match.update', worlds, known=known, chunk=200)
     findings.report(ctx, 'C04')
